@@ -1,9 +1,11 @@
 package vk
 
 import (
+	"context"
 	"errors"
 	"fmt"
 	"io"
+	"os"
 
 	"pgregory.net/rapid"
 )
@@ -21,6 +23,7 @@ type ScriptReader struct {
 	EOFWith         bool  // deliver io.EOF together with the final bytes
 	FailAt          int   // -1: never; otherwise return ErrInjected once pos == FailAt
 	FailWith        bool  // deliver the error together with the bytes that reach FailAt
+	Err             error // the sticky error delivered at FailAt (nil: ErrInjected)
 	Closes          int
 	ReadsAfterClose int
 	pos             int
@@ -40,6 +43,9 @@ func (r *ScriptReader) Read(p []byte) (int, error) {
 	limit, term, with := len(r.Data), io.EOF, r.EOFWith
 	if r.FailAt >= 0 && r.FailAt <= len(r.Data) {
 		limit, term, with = r.FailAt, ErrInjected, r.FailWith
+		if r.Err != nil {
+			term = r.Err
+		}
 	}
 	if r.pos >= limit {
 		return 0, term
@@ -141,4 +147,16 @@ func Consume(r io.Reader, sizes []int) (out []byte, err error) {
 			idle = 0
 		}
 	}
+}
+
+// FaultErrors is a menu of error values a source reader may fail with: the kind of error must not matter to a
+// consumer that promises to surface source errors (in particular io.ErrUnexpectedEOF is an error, not an end).
+var FaultErrors = []error{
+	ErrInjected,
+	io.ErrUnexpectedEOF,
+	fmt.Errorf("verif: read body: %w", io.ErrUnexpectedEOF),
+	io.ErrClosedPipe,
+	context.DeadlineExceeded,
+	io.ErrNoProgress,
+	os.ErrDeadlineExceeded,
 }
